@@ -331,6 +331,37 @@ def run(ctx):
         n_entries = len(make_rows(groups))
         for ci, cuts in enumerate(chunkings(n_entries, gen, ctx.pick(1, 4))):
             ctx.run_case(one, {"genome": names, "groups": groups, "cuts": list(cuts), "similarity": ci == 0, "geometry": ci < 2, "extra_ignored": extra_ignored, "long_names": (idx + ci) % 3 == 0})
+    # ---- contigs that add up to more than 2**31 positions: the per-contig counts are summed over the genome ---------------------------
+    def big_similarity(case):
+        r = random.Random(case["seed"])
+        names = ["chr1", "chr2", "chr3", "chr4"][:r.randint(3, 4)]
+        sizes = {n: r.choice([10 ** 9, 900_000_000, 2 ** 30]) for n in names}
+        A, B = [], []
+        for n in names:
+            for rowsX in (A, B):
+                if r.random() < 0.8:
+                    a = r.randrange(0, sizes[n] - 10)
+                    rowsX.append((n, a, min(sizes[n], a + r.choice([5, 10 ** 6, 5 * 10 ** 8]))))
+        if not A or not B:
+            return
+        both = sum(max(0, min(a[2], b[2]) - max(a[1], b[1])) for a in A for b in B if a[0] == b[0])
+        la, lb, N = sum(x[2] - x[1] for x in A), sum(x[2] - x[1] for x in B), sum(sizes.values())
+        a_, b_, c_ = both, la - both, lb - both
+        ta = table(A)
+        st = NpDataclassStream(iter([ta[:1], ta[1:]] if len(ta) > 1 else [ta]), dataclass=Interval)
+        wit = {"sizes": sizes, "a": A, "b": B, "seed": case["seed"]}
+        for cname, fn, expv in (("jaccard", jaccard, a_ / (a_ + b_ + c_) if a_ + b_ + c_ else None), ("forbes", forbes, a_ * N / ((a_ + b_) * (a_ + c_)) if (a_ + b_) * (a_ + c_) else None)):
+            if expv is None:
+                continue
+            src = st if cname == "jaccard" else table(A)
+            out = attempt(lambda: fn(sizes, src, table(B)))
+            if out[0] == "raised":
+                ctx.check(cname, False, "%s/raised-on-compatible-data:%s@%s" % (cname, out[1], out[2]), "%s raised on compatible data: %s" % (cname, out[3]), wit, None)
+            else:
+                ctx.check(cname, abs(out[1] - expv) <= 1e-9 * max(1.0, abs(expv)), "%s/wrong-value:genome-beyond-2**31" % cname, "%s over %.1f Gb = %r, interval arithmetic gives %r" % (cname, N / 1e9, out[1], expv), dict(wit, got=out[1], expected=expv), (cname, case["seed"]))
+    for i in range(ctx.pick(3, 40)):
+        ctx.run_case(big_similarity, {"seed": ctx.seed * 5003 + ctx.shard * 17 + i})
+
     ctx.sample({"genome": ["chr1", "chr2", "chr3"], "groups": ["chr3", "chr2"], "cuts": [1], "meaning": "entries fed in groups chr3 then chr2 as 2 chunks; every consumer must raise or hand back all entries"})
     ctx.floor("completed_compatible", ctx.pick(200, 2000))
     ctx.floor("raised_on_incompatible", ctx.pick(200, 2000))
